@@ -399,3 +399,255 @@ def nontrivial_iter(op, kv):
     return len(kv.get("ops", "")) >= 2 and len(kv.get("h", "")) >= 4
 
 def gen_c06(tier, rng): return gen_iter(tier, rng)
+
+# --------------------------------------------------------------------------
+# substring building blocks (C12), prefilters (C11)
+# --------------------------------------------------------------------------
+def words(alphabet, maxlen, minlen=0):
+    out = []
+    frontier = [b""]
+    if minlen == 0:
+        out.append(b"")
+    for n in range(1, maxlen + 1):
+        frontier = [w + bytes([c]) for w in frontier for c in alphabet]
+        if n >= minlen:
+            out += frontier
+    return out
+
+def fib_word(n):
+    a, b = b"b", b"a"
+    while len(b) < n:
+        a, b = b, b + a
+    return b[:n]
+
+def thue_morse(n):
+    return bytes(0x61 + (bin(i).count("1") & 1) for i in range(n))
+
+def structured_needles(rng, quick):
+    out = []
+    for u in (b"a", b"ab", b"aab", b"abc", b"abcab", b"aabaa"):
+        for k in (1, 2, 3, 5, 8, 13):
+            out.append(u * k)
+            out.append(u * k + b"c")
+            out.append(b"c" + u * k)
+    for n in (3, 5, 8, 13, 21, 31, 32, 33, 34, 55, 64, 89):
+        out.append(fib_word(n)); out.append(thue_morse(n))
+    for n in (1, 2, 15, 16, 17, 31, 32, 33, 63, 64, 65):
+        out.append(b"z" * n)
+    # bytes equal mod 64 (collide in the approximate byte set of Two-Way)
+    out.append(bytes([1, 65, 129, 193, 1, 65]))
+    out.append(bytes([1, 65, 129, 193] * 9))
+    if not quick:
+        for n in (100, 144, 255, 256, 300):
+            out.append(fib_word(n)); out.append(b"ab" * (n // 2) + b"c"); out.append(b"z" * n)
+    seen = set(); res = []
+    for x in out:
+        if x not in seen:
+            seen.add(x); res.append(x)
+    return res
+
+def haystacks_for(x, rng, quick):
+    """haystacks built from the needle's own factors: planted matches, near-matches, periodic overlaps"""
+    hs = []
+    n = len(x)
+    filler = b"q"
+    for pre in (0, 1, 3, 14, 15, 16, 17, 31, 33, 47, 63, 64, 70):
+        for post in (0, 1, 2, 15, 16, 33):
+            if quick and (pre * 7 + post) % 3:
+                continue
+            hs.append(filler * pre + x + filler * post)
+            if n >= 2:
+                near = bytearray(x); near[rng.randrange(n)] ^= 0x20
+                hs.append(filler * pre + bytes(near) + filler * post)          # near-match only
+                hs.append(bytes(near) + filler * pre + x + filler * post)      # near-match then match
+                hs.append(x[: n - 1] * 2 + filler * pre + x[1:] + x + filler * post)
+    if n >= 1:
+        hs.append(x * 3)
+        hs.append(x[: max(1, n // 2)] * 6 + x)
+        hs.append((x[:-1] if n > 1 else b"") * 4)
+    return hs
+
+def rk_collision_cases():
+    cases = []
+    # 2*b0 + b1 equal: (1,0) ~ (0,2); (3,1) ~ (2,3) ...
+    for (x, y) in ((bytes([1, 0]), bytes([0, 2])), (bytes([3, 1]), bytes([2, 3])), (bytes([1, 0, 0]), bytes([0, 2, 0])), (bytes([1, 1, 1]), bytes([0, 3, 1]))):
+        for pre in (0, 1, 5):
+            h = b"\x09" * pre + y + b"\x09" * 3 + x + y
+            cases.append((x, h)); cases.append((y, h)); cases.append((x, b"\x09" * pre + y + y + y))
+    # needles longer than 32 bytes: bytes older than 32 positions are shifted out of the hash
+    for n in (33, 40, 64):
+        x = bytes((i * 7 + 3) % 251 for i in range(n))
+        for k in range(1, n - 32 + 1, 3):
+            y = bytearray(x); y[k - 1] ^= 0xFF                     # differs only outside the hashed tail
+            h = bytes(y) + b"\x00" * 5 + x + bytes(y)
+            cases.append((x, h)); cases.append((x, bytes(y) * 2 + b"\x01"))
+    return cases
+
+def gen_blocks(tier, rng):
+    quick = tier == "quick"
+    cases = []
+    # ---- exhaustive over {a,b} (and {a,b,c}) for Rabin-Karp fwd/rev and Shift-Or
+    nx, nh = (4, 8) if quick else (6, 11)
+    needles = words(b"ab", nx)
+    hays = words(b"ab", nh)
+    k = 0
+    for x in needles:
+        for h in hays:
+            if quick and (k % 3) and len(h) > 5:
+                k += 1; continue
+            k += 1
+            cases.append(f"rkfind x={hexs(x)} h={hexs(h)} a={k % 16}")
+            cases.append(f"rkrfind x={hexs(x)} h={hexs(h)} a={k % 16}")
+            cases.append(f"sofind x={hexs(x)} h={hexs(h)}")
+    if not quick:
+        for x in words(b"abc", 4):
+            for h in words(b"abc", 8):
+                cases.append(f"rkfind x={hexs(x)} h={hexs(h)}")
+                cases.append(f"rkrfind x={hexs(x)} h={hexs(h)}")
+                cases.append(f"sofind x={hexs(x)} h={hexs(h)}")
+    # ---- structured needles against haystacks made of their own factors
+    for x in structured_needles(rng, quick):
+        for h in haystacks_for(x, rng, quick):
+            cases.append(f"rkfind x={hexs(x)} h={hexs(h)} a={len(h) % 8}")
+            cases.append(f"rkrfind x={hexs(x)} h={hexs(h)} a={len(h) % 8}")
+            if len(x) <= 17:
+                cases.append(f"sofind x={hexs(x)} h={hexs(h)}")
+    for (x, h) in rk_collision_cases():
+        cases.append(f"rkfind x={hexs(x)} h={hexs(h)}")
+        cases.append(f"rkrfind x={hexs(x)} h={hexs(h)}")
+    # Shift-Or: 15-byte needles that match, 16-byte needles are unsupported
+    for n in (13, 14, 15, 16, 17, 40):
+        x = bytes(0x61 + (i % 5) for i in range(n))
+        for pre in (0, 1, 20):
+            cases.append(f"sofind x={hexs(x)} h={hexs(b'q' * pre + x + b'q')}")
+            cases.append(f"sofind x={hexs(x)} h={hexs(b'q' * pre + x[:-1] + b'!' + x)}")
+    # ---- packed pair find (sse2 / avx2): all pairs on short needles, lengths around min_haystack_len
+    cases += gen_pp("ppfind", tier, rng)
+    return cases
+
+def gen_pp(op, tier, rng, isas=("sse2", "avx2")):
+    quick = tier == "quick"
+    cases = []
+    k = 0
+    needles = [b"ab", b"aa", b"abc", b"aab", b"abab", b"abcde", b"xyzxyz", b"aaaaaaa", bytes(range(1, 18)),
+               bytes(range(1, 33)), bytes(range(1, 34)), b"ab" * 20]
+    if not quick:
+        needles += [bytes((i * 5) % 251 + 1 for i in range(n)) for n in (7, 16, 31, 32, 40, 64, 255, 256, 300)]
+    for isa in isas:
+        B = 16 if isa == "sse2" else 32
+        for x in needles:
+            n = len(x)
+            idxs = list(range(min(n, 6))) + [n - 1, n // 2] + ([254, 255] if n > 255 else [])
+            pairs = [(i1, i2) for i1 in sorted(set(idxs)) for i2 in sorted(set(idxs)) if i1 != i2 and i1 < n and i2 < n]
+            if quick and len(pairs) > 6:
+                pairs = [pairs[(k + j * 3) % len(pairs)] for j in range(6)]
+            pairs += [(0, 0), (n, 0), (0, n)][: (1 if quick else 3)]      # invalid pairs
+            for (i1, i2) in pairs:
+                mins = max(n, max(min(i1, 255), min(i2, 255)) + 16)          # sse2 minimum
+                lens = sorted(set([mins - 1, mins, mins + 1, mins + 15, mins + 16, mins + 17, mins + 31, mins + 32,
+                                   mins + 33, mins + 48, max(n, max(i1, i2) + 32) - 1, max(n, max(i1, i2) + 32),
+                                   max(n, max(i1, i2) + 32) + 1, mins + 80]))
+                if quick:
+                    lens = [lens[(k + j) % len(lens)] for j in range(5)] + [mins - 1, mins]
+                for L in sorted(set(lens)):
+                    if L < 0:
+                        continue
+                    filler = 0x71
+                    # no occurrence; occurrence at chosen positions (esp. last chunk / final |x| bytes)
+                    poss = [None]
+                    if L >= n:
+                        cand = sorted(set([0, 1, (L - n) // 2, L - n - B, L - n - 1, L - n, L - n - 15, max(0, L - mins), max(0, L - mins) + 1]))
+                        poss += [p for p in cand if 0 <= p <= L - n]
+                        if quick and len(poss) > 5:
+                            poss = [None] + [poss[1 + (k + j * 2) % (len(poss) - 1)] for j in range(4)]
+                    for p in poss:
+                        h = bytearray([filler]) * L
+                        # partial pair hits (both pair bytes present, rest wrong) before the match
+                        if i1 < n and i2 < n and L > max(i1, i2) + 3:
+                            for q in (0, 2, max(0, (p or L) - 3)):
+                                if q + max(i1, i2) < L:
+                                    h[q + i1] = x[i1]; h[q + i2] = x[i2]
+                        if p is not None:
+                            h[p:p + n] = x
+                        cases.append(f"{op} isa={isa} x={hexs(x)} i1={i1} i2={i2} a={(k * 3) % 64} h={hexs(bytes(h))}")
+                        k += 1
+    return cases
+
+def naive_find(h, x):
+    i = h.find(x)
+    return None if i < 0 else i
+
+def oracle_blocks(op, kv, res, trace, flags):
+    x = bytes.fromhex(kv.get("x", "")); h = bytes.fromhex(kv.get("h", ""))
+    if flags:
+        return f"{op}: load outside the slices or misaligned: {flags}"
+    if op in ("rkfind", "rkrfind"):
+        if kv.get("nx"):
+            return None          # foreign construction needle: only memory safety is required (C05)
+        i = h.find(x) if op == "rkfind" else h.rfind(x)
+        want = "None" if i < 0 else f"Some({i})"
+        return None if res == want else f"{op} returned {res}, naive search says {want} (|x|={len(x)}, |h|={len(h)})"
+    if op == "sofind":
+        if len(x) > 15:
+            return None if res == "Unsupported" else f"shiftor::Finder::new accepted a needle of {len(x)} bytes: {res}"
+        i = h.find(x)
+        want = "None" if i < 0 else f"Some({i})"
+        return None if res == want else f"shiftor find returned {res}, naive search says {want}"
+    if op in ("ppfind", "ppprefilter"):
+        return oracle_pp(op, kv, res)
+    if op == "pfprefilter":
+        return oracle_pp(op, kv, res)
+    return None
+
+def oracle_pp(op, kv, res):
+    x = bytes.fromhex(kv.get("x", "")); h = bytes.fromhex(kv.get("h", ""))
+    i1, i2 = int(kv["i1"]), int(kv["i2"])
+    valid = i1 != i2 and i1 < len(x) and i2 < len(x)
+    if not valid:
+        return None if res == "NoPair" else f"{op}: invalid pair ({i1},{i2}) for a needle of {len(x)} bytes gave {res}"
+    if kv.get("fx"):
+        return None              # foreign argument needle: only memory safety (flags) is required
+    if op == "pfprefilter":
+        body = res
+    else:
+        B = 16
+        m = __import__("re").match(r"^min=(\d+):(.*)$", res)
+        if res == "Panic":
+            mn = max(len(x), max(i1, i2) + B)
+            return None if len(h) < mn else f"{op} panicked on a haystack of {len(h)} >= min_haystack_len {mn}"
+        if not m:
+            return f"{op}: unexpected output {res}"
+        mn = int(m.group(1)); body = m.group(2)
+        if mn != max(len(x), max(i1, i2) + B):
+            return f"{op}: min_haystack_len is {mn}, expected {max(len(x), max(i1, i2) + B)}"
+        if len(h) < mn:
+            return f"{op}: haystack of {len(h)} bytes below min_haystack_len {mn} did not panic: {body}"
+    first = h.find(x)
+    if op == "ppfind":
+        want = "None" if first < 0 else f"Some({first})"
+        return None if body == want else f"ppfind returned {body}, naive search says {want}"
+    # prefilters
+    if body == "None":
+        return None if first < 0 else f"{op} returned None but the needle occurs at {first}"
+    m = __import__("re").match(r"^Some\((\d+)\)$", body)
+    if not m:
+        return f"{op}: unexpected output {res}"
+    c = int(m.group(1))
+    if first >= 0 and c > first:
+        return f"{op} candidate {c} is after the first occurrence {first}"
+    if not (c + i1 < len(h) and c + i2 < len(h) and h[c + i1] == x[i1] and h[c + i2] == x[i2]):
+        return f"{op} candidate {c}: the pair bytes are not present at offsets {i1},{i2}"
+    return None
+
+def nontrivial_blocks(op, kv):
+    return len(kv.get("x", "")) >= 4 and len(kv.get("h", "")) >= 8
+
+def gen_c12(tier, rng): return gen_blocks(tier, rng)
+
+def gen_c11(tier, rng):
+    cases = gen_pp("ppprefilter", tier, rng)
+    # the portable prefilter, all dispatch outcomes of the memchr it calls
+    for c in gen_pp("pfprefilter", tier, rng, isas=("sse2",))[:: (3 if tier == "quick" else 1)]:
+        c = c.replace(" isa=sse2", "")
+        cases.append(c)
+    return cases
